@@ -186,8 +186,28 @@ def monitors(rep, rng, runq, todo, f, data, comps, grids, expansions, normalize,
         todo.append((t, f"inverse_transform component {p} = mean + sqrt(w_p) * scores . eigenfunctions on its own grid", key, opts, replay_d, None))
         if R.shape[1] != len(grids[p]):
             bad.append(f"reconstruction of component {p} is not on that component's grid")
-    # permutation of the components
+    # history: an MFPCA object first fitted on OTHER data (the components in reverse order: other grids and sizes per
+    # position) and then on this dataset gives exactly what a fresh object gives
     P = len(comps)
+    if P >= 2:
+        from FDApy.preprocessing.dim_reduction.mfpca import MFPCA
+        try:
+            with warnings.catch_warnings():
+                warnings.simplefilter("ignore")
+                h = MFPCA(n_components=K, method="covariance", univariate_expansions=[dict(e) for e in expansions[::-1]],
+                          normalize=normalize)
+                h.fit(fd.multivariate(comps[::-1]), method_smoothing=None)
+                h.univariate_expansions = [dict(e) for e in expansions]
+                h.fit(data, method_smoothing=None)
+                Eh = [np.asarray(c.values, float) for c in h.eigenfunctions.to_grid().data]
+            same = (np.array_equal(np.asarray(h.eigenvalues, float), np.asarray(f.eigenvalues, float))
+                    and len(Eh) == len(E) and all(a_.shape == b_.shape and np.array_equal(a_, b_) for a_, b_ in zip(Eh, E)))
+            rep.case((key, "refit"), kind="history-refit/MFPCA")
+            if not same:
+                bad.append("a fit on this dataset after a fit on another dataset differs from a fresh fit (state kept from the earlier fit)")
+        except AttributeError:
+            pass            # univariate_expansions is not assignable: no refit with other expansions through the public API
+    # permutation of the components
     if P >= 2:
         for perm in itertools.permutations(range(P)):
             if perm == tuple(range(P)):
